@@ -5,10 +5,12 @@
   unchanged, order 0 shifted by ½·ln(e₁/e₂) − βα²b₂ with e₁,e₂ the `b2en` energies), the no-op cases,
   and — for the energy estimate to be meaningful — `freqt` at α = 0 is the identity with the repaired
   input order, while the pinned commit's order reverses the cepstrum (the defect, fix 4304ae0).
-  The 1 % clause compares the *true* impulse-response energy of the running filter with and without β;
-  it is decided on every run from pulse responses through the public Vocoder.
+  `postfilter_preserves_energy`: the compensation restores the 576-tap `b2en` energy exactly.
+  The 1 % clause of the property compares the *true* impulse-response energy of the running (Padé-approximated)
+  filter with and without β; that part is decided on every run from pulse responses through the public Vocoder.
 -/
 import Jb.Proofs.Postfilter
+import Jb.Proofs.Energy
 
 set_option linter.unusedSectionVars false
 
@@ -42,5 +44,22 @@ theorem freqt_zero_identity (c : List K) (hc : c ≠ []) : freqt true c (c.lengt
 /-- the defect of the pinned commit as a statement about its model -/
 theorem pinned_freqt_reverses : freqt false ([1, 2, 3] : List ℚ) 2 0 = [3, 2, 1] := freqt_pinned_reverses
 theorem fixed_freqt_identity : freqt true ([1, 2, 3] : List ℚ) 2 0 = [1, 2, 3] := freqt_fixed_identity
+
+/-- **Energy is preserved.** The gain compensation `ln(e₁/e₂)/2` on `b[0]` restores the energy of the 576-tap
+    impulse response exactly: the `b2en` energy after `postfilter_mcp` equals the energy before, for every
+    order, α and β (hypotheses: `exp` additive and positive, `exp ∘ ln = id` on positives). -/
+theorem postfilter_preserves_energy
+    (hexp : ∀ a b : K, Transc.exp (a + b) = Transc.exp a * Transc.exp b)
+    (hpos : ∀ a : K, 0 < Transc.exp a)
+    (hln : ∀ x : K, 0 < x → Transc.exp (Transc.ln x) = x)
+    (b : Bool) (alpha beta : K) (c : List K) :
+    b2en ⟨true, b⟩ alpha (mc2b alpha (postfilterMcp ⟨true, b⟩ alpha beta c)) = b2en ⟨true, b⟩ alpha (mc2b alpha c) :=
+  postfilterMcp_energy hexp hpos hln b alpha beta c
+
+/-- shifting `c[0]` by `δ` scales every tap of the impulse response by `exp δ` -/
+theorem gain_scales_impulse_response (hexp : ∀ a b : K, Transc.exp (a + b) = Transc.exp a * Transc.exp b)
+    (δ c0 : K) (rest : List K) (len : Nat) :
+    c2ir ((c0 + δ) :: rest) len = (c2ir (c0 :: rest) len).map (· * Transc.exp δ) :=
+  c2ir_shift0 hexp δ c0 rest len
 
 end Jb.C14
